@@ -97,6 +97,14 @@ def kMainimage : Str := "mainimage".toList
 def kInstimage : Str := "instimage".toList
 def kDiscnum : Str := "discnum".toList
 def kTotaldiscs : Str := "totaldiscs".toList
+def kWarn0 : Str := "; WARNING.0".toList
+def kWarn1 : Str := "; WARNING.1".toList
+def vWarn0 : Str := "This section provides compatibility with pre-productmd treeinfos.".toList
+def vWarn1 : Str := "Read productmd documentation for details about new format.".toList
+def kFamily : Str := "family".toList
+def kTimestamp : Str := "timestamp".toList
+def kPackagedir : Str := "packagedir".toList
+def kRepository : Str := "repository".toList
 def tAddon : Str := "addon".toList
 def tVariant : Str := "variant".toList
 def pAddon : Str := "addon-".toList
@@ -308,21 +316,21 @@ def setOpt (d : Ini) (s k : Str) : Option Str → Except Err Ini
 def serGeneral (t : TreeInfo) (mainVariant : Option Str) (d : Ini) : Except Err Ini := do
   let d ← addSection d sGeneral
   let d ← sets d sGeneral
-    [("; WARNING.0".toList, "This section provides compatibility with pre-productmd treeinfos.".toList),
-     ("; WARNING.1".toList, "Read productmd documentation for details about new format.".toList),
+    [(kWarn0, vWarn0),
+     (kWarn1, vWarn1),
      (kName, t.release.name ++ ' ' :: t.release.version),
-     ("family".toList, t.release.name),
+     (kFamily, t.release.name),
      (kVersion, t.release.version),
      (kArch, t.tree.arch),
      (kPlatforms, platformsStr t.tree)]
   let n ← t.tree.ts.toInt
-  let d ← Ini.set d sGeneral "timestamp".toList (Str.intStr n)
+  let d ← Ini.set d sGeneral kTimestamp (Str.intStr n)
   let d ← Ini.set d sGeneral kVariants (Str.joinWith ',' (Ini.sortS (t.variants.map Variant.key)))
   let key ← chosenKey t.variants mainVariant
   let d ← Ini.set d sGeneral tVariant key
   let v ← getItem (key.length + 1) t.variants key
-  let d ← setOpt d sGeneral "packagedir".toList (generalPath t.tree.arch v.paths "packages".toList "source_packages".toList)
-  setOpt d sGeneral "repository".toList (generalPath t.tree.arch v.paths "repository".toList "source_repository".toList)
+  let d ← setOpt d sGeneral kPackagedir (generalPath t.tree.arch v.paths "packages".toList "source_packages".toList)
+  setOpt d sGeneral kRepository (generalPath t.tree.arch v.paths "repository".toList "source_repository".toList)
 
 /-- `TreeInfo.serialize(parser, main_variant)` into the given parser -/
 def serializeInto (t : TreeInfo) (mainVariant : Option Str) (d : Ini) : Except Err Ini := do
